@@ -1,2 +1,17 @@
-"""C15 -- not claimed."""
-NOT_APPLICABLE = 'SharedMutexImpl needs the spinlock plus two queues with at least three parties; the thread encoding gave no verdict for the simpler MutexImpl kernel in 900 s and no Tier A harness was built'
+"""C15 -- coroutine SharedMutex: writers exclude all, readers share, nobody is forgotten.  Real coroutines + real awaiters, Tier A."""
+from checks import mutex_common
+
+
+def plan(tier, seed, ctx):
+    return mutex_common.make_plan('C15', tier, seed, ctx)
+
+
+MANIFEST = {
+    'level_text': 'For yaclib::SharedMutex (<FIFO,ReadersFIFO> = <true,false> default and <false,true>; all four in thorough) driven by real coroutines through Lock/LockShared/Guard/GuardShared and '
+                  'UnlockHere/UnlockHereShared/guard destruction, the solver shows for every well-nested schedule of two coroutine starts with a third coroutine started before or after '
+                  '(preemption at any atomic / spinlock operation and inside critical sections): an exclusive holder never overlaps any other holder, shared holders overlap only with each other, '
+                  'Try* succeed only when compatible, every request is granted exactly once (nobody stays parked), the mutex is free at quiescence and frames are released.',
+    'level_note': 'Spinlock is a model (harness/model_include); 2 racing + 1 sequenced coroutines, 1 round; well-nested schedules. Trusted: clang -O1 IR after CoroSplit, ir2c, rt, cbmc.',
+    'technique': 'bounded model checking of real coroutine + mutex code with solver-decided preemption cubes',
+    'design_ref': 'DESIGN.md 4 C15',
+}
